@@ -408,6 +408,30 @@ pub(crate) fn validate_channelmodes<'a>(
     })
 }
 
+// JOIN list without repetitions: channel named more than once is kept once -
+// at its first position, with the key given at that position.
+pub(crate) fn dedup_join_list<'a>(
+    channels: Vec<&'a str>,
+    keys: Option<Vec<&'a str>>,
+) -> (Vec<&'a str>, Option<Vec<&'a str>>) {
+    let mut out_channels = vec![];
+    let mut out_keys = vec![];
+    for (i, channel) in channels.iter().enumerate() {
+        if !out_channels.contains(channel) {
+            out_channels.push(*channel);
+            if let Some(ref keys) = keys {
+                out_keys.push(keys[i]);
+            }
+        }
+    }
+    let out_keys_opt = if keys.is_some() {
+        Some(out_keys)
+    } else {
+        None
+    };
+    (out_channels, out_keys_opt)
+}
+
 // match text with wildcard pattern: '*' - any (also empty) sequence of characters,
 // '?' - exactly one character. It compares characters, not bytes.
 pub(crate) fn match_wildcard<'a>(pattern: &'a str, text: &'a str) -> bool {
